@@ -185,6 +185,11 @@ def make_long(cfg, rnd, steps):
     """Turn a configuration into a stream of thousands of calls on ONE explainer (thresholds in call counters)."""
     cfg.update(steps=steps, d=min(cfg["d"], 2), n_inner=1, extras=0, vary_calls=False, manual_updates=False,
                storage=rnd.choice([("uniform", 5, False), ("geometric", 5, None, False), ("interval", 3, True)]))
+    if cfg["exact"] and cfg["dyn"]:
+        # exact smoothing multiplies denominators at every call: a dyadic alpha keeps the rationals at ~2 bits per call
+        # (with k/1000 the numbers reach thousands of digits after 1400 calls - first long thorough run: a false alarm from the
+        # interpreter's int->str limit inside the harness' own hash loss, and shards beyond the watchdog)
+        cfg["alpha"] = rnd.choice([Q(1, 2), Q(1, 4), Q(3, 4)])
     if cfg["imputer"] == "library-default":
         cfg["imputer"] = "joint"
     return cfg
@@ -233,7 +238,7 @@ class Scenario:
             self.background = BatchStorage(store_targets=False)
             allf = list(self.names) + [f"extra{j}" for j in range(cfg.get("extras", 0))]
             for r in range(4):        # values disjoint from the stream's (the rows are still identified by their values)
-                self.background.update({n: 5000000 + 1000 * r + j for j, n in enumerate(allf)})
+                self.background.update({n: -(5000000 + 1000 * r + j) for j, n in enumerate(allf)})      # (negative: stream values grow without bound)
             real = MarginalImputer(self.model, rnd_strategy(seed), self.background)
         else:
             real = None
